@@ -498,6 +498,82 @@ def _r3(model, rep):
              "penalize:rhs", "bout[D] = x[D] / epsilon", "penalize",
              "the penalised right-hand side is not x[D]/epsilon at D",
              fn.lineno)
+    _penalty_is_scalar(model, rep)
+
+
+def _rank(e, ranks) -> Optional[int]:
+    """array rank of an expression (0 = scalar), None if unknown"""
+    if isinstance(e, ast.Constant):
+        return 0
+    if isinstance(e, ast.Name):
+        return ranks.get(e.id)
+    if isinstance(e, ast.BinOp):
+        l, r = _rank(e.left, ranks), _rank(e.right, ranks)
+        return None if l is None or r is None else max(l, r)
+    if isinstance(e, ast.UnaryOp):
+        return _rank(e.operand, ranks)
+    if isinstance(e, ast.Subscript):
+        b = _rank(e.value, ranks)
+        i = _rank(e.slice, ranks)
+        if b is None:
+            return None
+        if isinstance(e.slice, ast.Constant) and isinstance(
+                e.slice.value, int):
+            return max(b - 1, 0)
+        return b if i in (1, None) else b
+    if isinstance(e, ast.Call):
+        f = src(e.func)
+        if f in ("np.linalg.norm", "np.max", "np.min", "np.amax", "np.sum",
+                 "np.mean", "max", "min", "float") and not any(
+                     k.arg == "axis" for k in e.keywords):
+            return 0
+        if f in ("np.abs", "np.sqrt", "np.asarray", "np.array", "abs",
+                 "np.maximum", "np.minimum", "np.ones_like"):
+            rs = [_rank(a, ranks) for a in e.args]
+            return None if any(r is None for r in rs) else max(rs)
+        if isinstance(e.func, ast.Attribute):
+            if e.func.attr in ("max", "min", "sum", "mean", "item") and \
+                    not e.args and not e.keywords:
+                return 0
+            if e.func.attr in ("astype", "copy", "flatten"):
+                return _rank(e.func.value, ranks)
+            if e.func.attr == "diagonal":
+                return 1
+    return None
+
+
+def _penalty_is_scalar(model, rep):
+    """the default penalty of penalize() is one number for all constrained
+    DOFs (a reduction over the constrained diagonal), as the documented
+    scalar parameter is; a per-row default gives rows with a zero or
+    unstored diagonal an infinite epsilon, i.e. no constraint at all"""
+    fn = model.func(U, "penalize")
+    ranks = {"D": 1, "I": 1}
+    for st in sorted([n for n in walk_no_nested(fn.node)
+                      if isinstance(n, ast.Assign)],
+                     key=lambda n: n.lineno):
+        if len(st.targets) == 1 and isinstance(st.targets[0], ast.Name) \
+                and st.targets[0].id != "epsilon":
+            r = _rank(st.value, ranks)
+            if r is not None:
+                ranks[st.targets[0].id] = r
+    eps = [n for n in ast.walk(fn.node) if isinstance(n, ast.Assign)
+           and len(n.targets) == 1 and src(n.targets[0]) == "epsilon"]
+    if len(eps) != 1:
+        raise AnalysisError(f"penalize: {len(eps)} default assignments of "
+                            f"epsilon, 1 expected")
+    r = _rank(eps[0].value, ranks)
+    if r is None:
+        raise AnalysisError(f"penalize: rank of '{src(eps[0].value)[:60]}' "
+                            f"not determined")
+    _verdict(rep, "C05-R3", r == 0, "penalize:epsilon-scalar",
+             "default epsilon is a single number (reduction over the "
+             "constrained diagonal)", "penalize",
+             f"the default epsilon '{src(eps[0].value)[:60]}' is an array "
+             f"with one entry per constrained DOF: a constrained row whose "
+             f"diagonal is zero or not stored gets epsilon = inf, hence a "
+             f"zero penalty - its prescribed value is ignored",
+             eps[0].lineno)
 
 
 def _verdict(rep, rule, ok, cons, okmsg, qual, badmsg, line):
@@ -687,6 +763,9 @@ def run(model: Model, rep, tier: str) -> None:
 
 _U = "skfem/utils.py"
 MUTANTS = [
+    ("penalize: default penalty computed per row",
+     ("skfem/utils.py", "np.linalg.norm(d[D], np.inf).astype(float)",
+      "np.abs(d[D]).astype(float)"), "C05-R3"),
     ("enforce: matrix copy dropped",
      (_U, "    Aout = A if overwrite else A.copy()\n\n    # set rows on lhs "
       "to zero", "    Aout = A\n\n    # set rows on lhs to zero"), "C05-R1"),
@@ -754,6 +833,9 @@ MUTANTS = [
       "\n"), None),
 ]
 TWINS = [
+    ("penalize: default penalty from the largest absolute diagonal",
+     ("skfem/utils.py", "np.linalg.norm(d[D], np.inf).astype(float)",
+      "float(np.abs(d[D]).max())")),
     ("enforce: explicit branch instead of the conditional expression",
      (_U, "            bout = b if overwrite else b.copy()\n            "
       "bout[D] = x[D]",
